@@ -49,6 +49,7 @@ def gen_cases(rng, tier):
     model = spec.gen_eam_model(rng, kind, groute, target="DL_POLY_EAM" if kind == "eam" else "DL_POLY_EAM_fs")
     if groute == "api":
       model["api_containers"] = rng.choice([None, None, "tuple", "generator", "map", "amend_after_write"])
+      model["api_extra_density_keys"] = (i % 3 == 0)
     huge = None
     if i % 8 == 3:
       huge = spec.make_huge(rng, model)
@@ -107,6 +108,8 @@ def run_case(case, ctx):
   ctx.cls("route:" + route)
   if model.get("api_containers"):
     ctx.cls("api_containers:" + model["api_containers"])
+  if model.get("api_extra_density_keys") and route.startswith("api") and model["type"] == "fs":
+    ctx.cls("density_dictionaries_with_extra_species")
   if case.get("huge"):
     ctx.cls("huge_values_1e45_1e80:" + case["huge"])
   ctx.cls("target:" + model["target"])
